@@ -51,12 +51,18 @@ EACH change:
      violation of the property as stated, not of something stronger than the property says.
   4. the two changes should be in different mechanisms (different functions/templates/files) and have different
      kinds of trigger.
-  5. Earlier rounds of this exercise produced many changes inside iohelp/iohelp.go's primitive readers/writers and in
-     comment tokenizing. Prefer something else this time where the property allows it: the generator's templates and
-     emitters (gen*.go - changes there are fine as long as the suite's golden outputs under testdata do not change,
-     i.e. the change only affects type shapes / option combinations / import situations the testdata schemas do not
-     contain), the parser's pending state, Validate, the formatter's token-stream logic, import resolution, the
-     command-line tools, or state that survives from one call/record/definition to the next.
+  5. Earlier rounds of this exercise already produced, for the various properties: changes to iohelp's primitive
+     readers/writers and its error latches, Size() shortcuts for "fixed-size" structs, misspelled template keys,
+     pending-state leaks in the parser ([deprecated], [opcode], [flags]), precedence/grouping of [flags] expressions,
+     printf-format mishaps with %, long-comment / buffer-size effects in the tokenizer, import de-duplication keys,
+     hard links / long lines / shared buffers in the command-line tools, sync.Once caches, and aliasing through
+     *FieldType. Do NOT repeat those ideas. Look for something of a different kind - for instance: an off-by-one at a
+     numeric boundary (255/256 indices, 2^31/2^32 lengths, discriminator or opcode bytes, the 4096 pre-allocation
+     threshold from the other side), signedness or width confusion, a map/array/union nesting that takes a different
+     emitter path, readonly structs and their getters/constructors, pointer-receiver or private-definition variants of
+     a template, opcodes, enums with unusual bases, dates/guids/floats, sort or iteration order, error paths that
+     return early and skip a restore/cleanup (LimitedReader, baseReader, temp files), Validate rules that interact,
+     formatter handling of attributes/tags/deprecations/unions, directory handling in the tools, exit codes.
 Read the code first; look for shortcuts, special cases, counters, cursors, shared buffers, thresholds, lookup tables
 keyed by type name, pending-state flags, and places where two code paths must agree.
 
